@@ -10,14 +10,17 @@ use ic_btc_interface::{Flag, Network, SetConfigRequest};
 use serde_json::json;
 
 fn cfg_for(rng: &mut Rng) -> HistCfg {
+    // half of the cases below validation-by-heartbeat, with mock difficulties: the best chain is
+    // then not always the longest branch
+    let insert = rng.chance(1, 2);
     HistCfg {
         net: Network::Regtest,
-        path: Path::Heartbeat,
+        path: if insert { Path::Insert } else { Path::Heartbeat },
         threshold: rng.range(2, 5) as u32,
         n_each: 1,
         max_txs: 2,
-        fork_pct: 30,
-        palette: Palette::One,
+        fork_pct: if insert { 50 } else { 30 },
+        palette: if insert { *rng.pick(&[Palette::Heavy(12), Palette::Random(4), Palette::Heavy(40)]) } else { Palette::One },
         fanout_pct: 5,
         share_pct: 5,
         lazy_fees: true,
@@ -70,6 +73,9 @@ fn matrix(h: &mut Hist, ctx: &mut Ctx) {
     let must_max = h.ann_must.iter().map(|x| x.height).max().unwrap_or(0);
     let may_max = h.ann_may.iter().map(|x| x.height).max().unwrap_or(0).max(must_max);
     ctx.cov.count("c14_states");
+    if !h.model.best_is_longest() {
+        ctx.cov.count("c14_states_where_the_best_chain_is_not_the_longest");
+    }
     if must_max != may_max {
         ctx.cov.count("c14_states_with_must_differing_from_may");
     }
@@ -141,7 +147,55 @@ fn matrix(h: &mut Hist, ctx: &mut Ctx) {
 }
 
 /// one response: some valid blocks (possibly previously announced ones) + announced headers
+/// the same step on the insert path (mock difficulties): blocks through state::insert_block,
+/// announced headers through state::insert_next_block_headers
+fn response_insert(h: &mut Hist, ctx: &mut Ctx) -> bool {
+    let n = h.rng.range(0, 2) as usize;
+    for _ in 0..n {
+        let cand: Vec<crate::hist::Hidden> = h.ann_must.iter().filter(|x| h.model.is_live(&x.parent) && !h.model.is_live(&x.hash)).cloned().collect();
+        if !cand.is_empty() && h.rng.chance(1, 3) {
+            let x = h.rng.pick(&cand).clone();
+            if h.deliver(x.block.clone().unwrap(), 1, ctx).is_none() {
+                return false;
+            }
+            ctx.cov.count("c14_announced_blocks_delivered");
+        } else {
+            let parent = h.pick_parent();
+            if h.add_block_on(&parent, ctx).is_none() {
+                return false;
+            }
+        }
+        h.prune_announced();
+    }
+    let mut next: Vec<Vec<u8>> = vec![];
+    if h.rng.chance(3, 4) {
+        let k = h.rng.range(1, 8) as usize;
+        next.extend(h.hidden_header_chain(k));
+    }
+    if h.rng.chance(1, 5) {
+        let g = h.rng.range(0, 100) as usize;
+        next.push(h.rng.bytes(g));
+    }
+    let blobs: Vec<ic_btc_canister::types::BlockHeaderBlob> = next.iter().map(|x| world::header_blob(x.clone())).collect();
+    let r = world::guarded(|| ic_btc_canister::with_state_mut(|s| ic_btc_canister::state::insert_next_block_headers(s, &blobs)));
+    if let Out::Trap(m) = r {
+        ctx.violation(format!("insert_next_block_headers trapped: {}", m), None, json!({"log": h.log}));
+        h.desync = Some("trap".into());
+        return false;
+    }
+    h.note_announced(&next);
+    if !h.opportunity(ctx) {
+        return false;
+    }
+    h.prune_announced();
+    ctx.cov.count("c14_insert_path_steps");
+    true
+}
+
 fn response(h: &mut Hist, ctx: &mut Ctx) -> bool {
+    if h.cfg.path == Path::Insert {
+        return response_insert(h, ctx);
+    }
     let mut elements: Vec<Vec<u8>> = vec![];
     let n = h.rng.range(0, 2) as usize;
     for _ in 0..n {
@@ -216,6 +270,50 @@ pub fn lane_gate(ctx: &mut Ctx) {
         let c20 = ctx.prop == "C20";
         if !c20 {
             matrix(&mut h, ctx);
+        }
+        // scripted opening on the insert path: a heavy short best chain against a light long branch,
+        // then headers announced on the best tip (the sync rule speaks of the best-chain height)
+        if h.cfg.path == Path::Insert && k % 2 == 0 {
+            h.set_threshold(1000);
+            let g = h.model.anchor;
+            let heavy = h.gen_block(&g);
+            let mut ok = h.deliver(heavy, 100, ctx).is_some();
+            let best = *h.model.best_chains()[0].last().unwrap();
+            let mut tip = g;
+            let light = h.rng.range(2, 6);
+            for _ in 0..light {
+                if !ok {
+                    break;
+                }
+                let b = h.gen_block(&tip);
+                match h.deliver(b, 1, ctx) {
+                    Some(x) => tip = x,
+                    None => ok = false,
+                }
+            }
+            if ok {
+                for _ in 0..h.rng.range(1, 7) {
+                    // one header at a time on top of the previous one, starting at the best tip
+                    let (parent, time, height) = match h.ann_must.last() {
+                        Some(x) => (x.hash, x.time, x.height),
+                        None => (best, h.model.blocks[&best].time, h.model.blocks[&best].height),
+                    };
+                    h.uniq += 1;
+                    let cb = gen::coinbase_tx(height + 1, h.uniq, vec![(1, h.uni.addrs[0].script.clone())]);
+                    let b = gen::make_block(h.net(), parent, time + 30, vec![cb], true);
+                    let header = gen::header_bytes(&b.header);
+                    h.hidden.push(crate::hist::Hidden { hash: gen::hash_of(&b), parent, time: time + 30, height: height + 1, header: header.clone(), block: Some(b) });
+                    let blobs = vec![world::header_blob(header.clone())];
+                    let _ = world::guarded(|| ic_btc_canister::with_state_mut(|s| ic_btc_canister::state::insert_next_block_headers(s, &blobs)));
+                    h.note_announced(&[header]);
+                    if !c20 {
+                        matrix(&mut h, ctx);
+                    } else {
+                        crate::mon::check_c20(&mut h, ctx);
+                    }
+                }
+                ctx.cov.count("c14_scripted_heavy_short_vs_light_long_openings");
+            }
         }
         let rounds = if ctx.tier == Tier::Quick { 14 } else { 60 };
         for _ in 0..rounds {
